@@ -23,10 +23,18 @@
                          the tasks waiting in the checkpoint are rebuilt by restoreTasks, nested
                          checkpoints are forwarded to the sub graphs interrupted inside, every
                          later task is built by createTasks); F's n_runs are the nodes that
-                         execute in this call *)
+                         execute in this call
+     would_call F opts   (Model/OptionsAll.v) run_call on the forest in which every node executes:
+                         what each node of the forest is handed by this call IF it executes;
+                         F's n_runs are ignored. would_resume: the same for a re-entered run
+     deliveries / firings / within   the projections of a list of reports that the
+                         correspondence check compares (per component the payloads received in
+                         order, per node the sorted handler list) and the pointwise comparison
+                         of an observation with the model's answer for all nodes *)
 From Coq Require Import Permutation.
-From Eino Require Import Base.Util Model.Options Model.OptionsSpec Model.OptionsResume
-  Proofs.Options Proofs.OptionsResume Proofs.OptionsFired Proofs.OptionsPerm Proofs.OptionsClauses.
+From Eino Require Import Base.Util Model.Options Model.OptionsSpec Model.OptionsResume Model.OptionsAll
+  Proofs.Options Proofs.OptionsResume Proofs.OptionsFired Proofs.OptionsPerm Proofs.OptionsClauses
+  Proofs.OptionsAll.
 From Eino Require Base.GoSlice Proofs.CallbacksSlice Model.OptionsSlice Proofs.OptionsSlice.
 Local Open Scope N_scope.
 
@@ -176,6 +184,89 @@ Theorem resume_bad_designation_errors :
 Proof. exact resume_call_fails_iff. Qed.
 Print Assumptions resume_bad_designation_errors.
 
+(* ---- the set of executing nodes is not an input ---------------------------------------- *)
+(* Which nodes execute in a call is decided by the engine (branches, interrupt points, the
+   step loop), not by the routing of options. would_call answers for every node of the forest,
+   executing or not: every component has exactly its closed form there ... *)
+Theorem every_node_would_receive_exactly :
+  forall F opts rs p nd ty,
+    keys_unique F -> would_call F opts = Ok rs ->
+    resolve F 0 p = Some nd -> n_kind nd = KComp ty ->
+    exists r, In r rs /\ r_path r = p /\ r_items r = Some (spec_delivered opts p ty).
+Proof. exact would_call_complete. Qed.
+Print Assumptions every_node_would_receive_exactly.
+
+Theorem would_receive_only_addressed :
+  forall F opts rs r its,
+    keys_unique F -> would_call F opts = Ok rs -> In r rs -> r_items r = Some its ->
+    exists nd ty, resolve F 0 (r_path r) = Some nd /\ n_kind nd = KComp ty /\
+                  its = spec_delivered opts (r_path r) ty /\ Forall (fun it => fst it = ty) its.
+Proof. exact would_call_sound. Qed.
+Print Assumptions would_receive_only_addressed.
+
+(* ... and what a call reports on a forest with some nodes not executing is that answer,
+   filtered by [executes]: the set of executing nodes selects reports and does nothing else
+   (no report changes because another node does or does not execute) ... *)
+Theorem executing_set_only_selects :
+  forall F opts rs rs',
+    keys_unique F -> run_call F opts = Ok rs -> would_call F opts = Ok rs' ->
+    forall r, In r rs <-> In r (select_executing F rs').
+Proof. exact run_call_select_executing. Qed.
+Print Assumptions executing_set_only_selects.
+
+(* ... nor does it decide whether the call fails (options of one Go type each; a mixed
+   WithLambdaOption(a, b) fails in convertOption inside the node it reaches, i.e. only if that
+   node executes) ... *)
+Theorem failure_independent_of_executing_set :
+  forall F opts,
+    keys_unique F -> well_nested F -> F <> [] -> Forall uniform opts ->
+    (fails (would_call F opts) <-> fails (run_call F opts)).
+Proof. exact would_call_fails_iff. Qed.
+Print Assumptions failure_independent_of_executing_set.
+
+(* ... and there is one report per node path (so "the" report of a node is well defined). *)
+Theorem one_report_per_node :
+  forall F opts rs,
+    keys_unique F -> run_call F opts = Ok rs -> NoDup (map r_path rs).
+Proof. exact run_call_paths_nodup. Qed.
+Print Assumptions one_report_per_node.
+
+(* The comparison the correspondence check makes for a call of a session (Corr/C16.v
+   obs_within: every node observed to execute must have exactly one entry in the model's answer
+   for all nodes, with the observed values) accepts an observed delivery only if it is the closed
+   form of the node at that path, accepts the closed form for every component, and accepts a
+   handler list only if it is spec_fired, sorted. *)
+Theorem within_accepts_only_the_addressed :
+  forall F opts rs p vals,
+    keys_unique F -> would_call F opts = Ok rs ->
+    entry_within (deliveries rs) (p, vals) = true ->
+    exists nd ty, resolve F 0 p = Some nd /\ n_kind nd = KComp ty /\
+                  vals = map snd (spec_delivered opts p ty).
+Proof. exact within_deliveries_sound. Qed.
+Print Assumptions within_accepts_only_the_addressed.
+
+Theorem within_accepts_the_addressed :
+  forall F opts rs p nd ty,
+    keys_unique F -> would_call F opts = Ok rs ->
+    resolve F 0 p = Some nd -> n_kind nd = KComp ty ->
+    entry_within (deliveries rs) (p, map snd (spec_delivered opts p ty)) = true.
+Proof. exact within_deliveries_complete. Qed.
+Print Assumptions within_accepts_the_addressed.
+
+Theorem within_accepts_only_the_designated_handlers :
+  forall F opts rs p vals,
+    keys_unique F -> would_call F opts = Ok rs ->
+    entry_within (firings rs) (p, vals) = true ->
+    vals = sort_by N.ltb (spec_fired (graph_handlers opts) opts p).
+Proof. exact within_firings_sound. Qed.
+Print Assumptions within_accepts_only_the_designated_handlers.
+
+(* a call that re-enters the run from any checkpoint has the same answer for all nodes *)
+Theorem would_resume_same :
+  forall F cl ck, would_resume F cl ck = would F cl.
+Proof. exact would_resume_eq. Qed.
+Print Assumptions would_resume_same.
+
 (* ---- map_order_irrelevant ----------------------------------------------------------- *)
 (* A graph's nodes are the keys of a Go map, iterated in an arbitrary order by extractOption
    and by the validation of nested designations. Listing the nodes of any graph of the forest in
@@ -316,6 +407,30 @@ Example fired_example :
        mkRep [2; 3] (Some []) (Some [7; 9; 8]);
        mkRep [3] (Some []) None ].
 Proof. vm_compute. reflexivity. Qed.
+
+(* the answer for all nodes of exF: node 2/4 and what lies below it do not execute in exF (the
+   branch skips them) but have their entries; the reports of run_example are the selected ones *)
+Example would_example :
+  would_call exF exOpts =
+  Ok [ mkRep [] None (Some []);
+       mkRep [1] (Some [(6, 100)]) (Some []);
+       mkRep [2] None (Some []);
+       mkRep [2; 1] (Some [(6, 100); (6, 101); (6, 102); (6, 103)]) (Some []);
+       mkRep [2; 3] (Some [(7, 104); (7, 104)]) (Some []);
+       mkRep [2; 4] None (Some []);
+       mkRep [2; 4; 1] (Some [(6, 100); (6, 102); (6, 103)]) (Some [9]);
+       mkRep [3] (Some []) None ] /\
+  (exists rs', would_call exF exOpts = Ok rs' /\ run_call exF exOpts = Ok (select_executing exF rs')) /\
+  (exists rs', would_call exF exOpts = Ok rs' /\
+     entry_within (deliveries rs') ([2; 3], [104; 104]) = true /\
+     entry_within (deliveries rs') ([2; 3], [104]) = false /\
+     entry_within (deliveries rs') ([2; 9], []) = false /\
+     entry_within (firings rs') ([2; 4; 1], [9]) = true).
+Proof.
+  split; [vm_compute; reflexivity|]. split.
+  - eexists. split; [vm_compute; reflexivity|]. vm_compute. reflexivity.
+  - eexists. split; [vm_compute; reflexivity|]. vm_compute. auto.
+Qed.
 
 (* a session: the first call was interrupted inside graph node 2 after node 2/1 (the checkpoint
    holds the task of graph node 2 with a nested checkpoint holding the task of 2/3); the
